@@ -39,12 +39,12 @@ var contentOrder = []string{"link-plain", "layout-plain", "link-nasty", "layout-
 
 func poolKeys(thorough bool) []string {
 	if thorough {
-		return []string{"ed5", "rsa2048", "p256", "p384"}
+		return []string{"ed5", "rsa2048", "p256", "p384^", "ed4^"}
 	}
-	return []string{"ed5", "p384"}
+	return []string{"ed5", "p384^"} // "^": key object whose key id is spelled in upper case
 }
 
-var observers = []string{"ed5", "rsa2048", "p256", "p384", "ed6"}
+var observers = []string{"ed5", "rsa2048", "p256", "p384^", "ed4^", "ed6"}
 
 // ---- reference side -------------------------------------------------------------------------
 
@@ -180,6 +180,9 @@ func (l *live) apply(op string) error {
 		sb, err := ref.SignRaw(k.Signer, signable)
 		if err != nil {
 			return err
+		}
+		if raw, _ := os.ReadFile(path); !json.Valid(raw) {
+			return fmt.Errorf("Dump wrote %d bytes that are not one JSON document", len(raw))
 		}
 		entry := map[string]any{"keyid": k.ID, "sig": hex.EncodeToString(sb)}
 		if dsse {
@@ -355,6 +358,16 @@ func runMutation(work string, cs Case) (sig, obs string) {
 	if err := l.md.Dump(path); err != nil {
 		return "", "dump: " + err.Error()
 	}
+	notJSON := func() (string, string) {
+		raw, _ := os.ReadFile(path)
+		if json.Valid(raw) {
+			return "", ""
+		}
+		return "C04|signed-metadata-dumped-as-a-file-that-is-not-json|" + wr, "Dump wrote " + fmt.Sprint(len(raw)) + " bytes that are not one JSON document (the path held an earlier dump)"
+	}
+	if s, o := notJSON(); s != "" {
+		return s, o
+	}
 	parts := strings.SplitN(cs.Mut, ":", 2)
 	mustFailFor := signers
 	reload := func() (intoto.Metadata, error) { return intoto.LoadMetadata(path) }
@@ -398,6 +411,9 @@ func runMutation(work string, cs Case) (sig, obs string) {
 				return "", "altered payload cannot be encoded"
 			}
 			fresh.Dump(path)
+			if s, o := notJSON(); s != "" {
+				return s, o
+			}
 			gen.EditJSONFile(path, func(doc map[string]any) { doc["signatures"] = old["signatures"] })
 			if md, err = reload(); err != nil {
 				return "", "altered file refused at load (fine): " + err.Error()
